@@ -358,6 +358,7 @@ pub fn check(tier: &str, seed: u64, only: Option<&str>) -> i32 {
     let mut nocompare_crashes = Vec::new();
     let mut kth_positions: BTreeSet<usize> = BTreeSet::new();
     let mut sim_time_ns = 0u128;
+    let mut schedules: HashSet<u64> = HashSet::new();
     let mut samples = Vec::new();
 
     for ((si, _, _), idxs) in &groups {
@@ -384,6 +385,9 @@ pub fn check(tier: &str, seed: u64, only: Option<&str>) -> i32 {
                 *tot.entry("hash_key_draws").or_default() += stats.hashkey_draws;
                 *tot.entry("clock_reads").or_default() += stats.clock_reads;
                 sim_time_ns += stats.sim_time_ns as u128;
+                if stats.steals > 0 {
+                    schedules.insert(stats.sched_hash);
+                }
                 let nontrivial = stats.steals > 0
                     || stats.workers_used >= 2
                     || (stats.hashkey_draws > 0 && env.entropy_seed != 0)
@@ -499,11 +503,11 @@ pub fn check(tier: &str, seed: u64, only: Option<&str>) -> i32 {
             // differences were seen in the batch but none replays: a harness problem (or a
             // dependence on something the simulator does not control), never a VIOLATION
             eprintln!("HARNESS ERROR: {} difference(s) seen in the batch did not reproduce in fresh processes", unreproducible.len());
-            write_c20_evidence(tier, seed, evaluations, &distinct, &pool_sizes, &tot, &matrix, &controls_fired, &controls_seen, &kth_positions, sim_time_ns, &samples, &planned, &reg, reported, &known_hits, t0, wall_batch, &nocompare_crashes, classes.len(), fresh_runs);
+            write_c20_evidence(tier, seed, evaluations, &distinct, &pool_sizes, &tot, &matrix, &controls_fired, &controls_seen, &kth_positions, sim_time_ns, &samples, &planned, &reg, reported, &known_hits, t0, wall_batch, &nocompare_crashes, classes.len(), fresh_runs, schedules.len());
             return 2;
         }
     }
-    write_c20_evidence(tier, seed, evaluations, &distinct, &pool_sizes, &tot, &matrix, &controls_fired, &controls_seen, &kth_positions, sim_time_ns, &samples, &planned, &reg, reported, &known_hits, t0, wall_batch, &nocompare_crashes, classes.len(), fresh_runs);
+    write_c20_evidence(tier, seed, evaluations, &distinct, &pool_sizes, &tot, &matrix, &controls_fired, &controls_seen, &kth_positions, sim_time_ns, &samples, &planned, &reg, reported, &known_hits, t0, wall_batch, &nocompare_crashes, classes.len(), fresh_runs, schedules.len());
     println!(
         "C20 {tier}: {} simulated runs over {} scenarios, {} distinct non-trivial, {} divergence classes ({} reported, {} known), {:.1}s",
         evaluations,
@@ -544,6 +548,7 @@ fn write_c20_evidence(
     nocompare_crashes: &[String],
     classes: usize,
     fresh_runs: usize,
+    distinct_schedules: usize,
 ) {
     let wall = crate::seams::real_now_s() - t0;
     let mut samples = samples.to_vec();
@@ -566,6 +571,7 @@ fn write_c20_evidence(
             "scenarios": scen_names.len(),
             "scenario_names": scen_names,
             "pool_sizes_seen": pool_sizes,
+            "distinct_executed_schedules_with_steals": distinct_schedules,
             "fault_and_schedule_events": tot,
             "crate_by_environment_matrix": matrix,
             "in_tree_controls": {"seen": controls_seen, "diverged_runs": controls_fired, "note": "documented exclusions of C20 (k-means||, unseeded FastICA, permutation p-values): expected to diverge, informational; harness-owned controls (parallel float sum, probe hash map, thread_rng, Instant) are enforced by the self-test before every run"},
